@@ -182,12 +182,25 @@ def rowform(e):
     """resolve positional indexing: the element a loop variable / an index into a comprehension stands for is written in terms
     of the underlying sequence (bins[i] with bins = [f(h) for h in hs] and i the position of the same walk -> f(hs[i])).
     Only unmutated containers (read epoch 0) are resolved."""
+    def prefix(d):
+        """d = F[:U] (lower bound absent or 0, step absent or 1): (F, U)"""
+        if d[0] == "slice" and len(d) == 5 and d[2] in (("c", None), ("c", 0)) and d[4] in (("c", None), ("c", 1)) and d[3] != ("c", None):
+            return d[1], d[3]
+        return None
+
     def f(n):
         if n[0] == "it":
             r = elem_at(n[2], n[1])
+            if r[0] == "it" and prefix(r[2]) is not None:
+                # walking F[:U] visits F[i] for i in range(U)
+                fu = prefix(r[2])
+                return ("sub", fu[0], ("it", r[1], ("call", ("g", "range"), (fu[1],), ())), 0)
             return None if r == n else rowform(r) if r[0] != "it" else r
         if n[0] == "ix":
-            return ("ix", n[1], posroot(n[2]))
+            r = posroot(n[2])
+            if prefix(r) is not None:
+                return ("it", n[1], ("call", ("g", "range"), (prefix(r)[1],), ()))
+            return ("ix", n[1], r)
         if n[0] == "sub" and len(n) == 4 and n[3] == 0 and n[2][0] == "ix" and n[1][0] in ("comp", "call"):
             if posroot(n[1]) == n[2][2]:
                 r = elem_at(n[1], n[2][1])
@@ -426,6 +439,19 @@ def _norm_node(n):
                 return _norm_node(("call", fn, (args[0], args[1]), ()))
         if fn in (("g", "int"), ("g", "float")) and len(args) == 1 and not kw and is_num_const(args[0]):
             return C(int(args[0][1]) if fn[1] == "int" else float(args[0][1]))
+        if fn in (("g", "int"), ("g", "float")) and len(args) == 1 and not kw:
+            # conversions of a value that already has the target type are the identity
+            a = args[0]
+            slot = None
+            if a[0] == "unp" and isinstance(a[1], str) and isinstance(a[2], int):
+                chars = [c for c in a[1] if c.isalpha()]
+                slot = chars[a[2]] if a[2] < len(chars) else None
+            if fn[1] == "int" and ((a[0] == "call" and a[1] in (("g", "int"), ("g", "len"), ("ext", "math", "ceil"), ("ext", "math", "floor"), ("ext", "math", "trunc")))
+                                   or (a[0] == "call" and a[1] == ("g", "round") and len(a[2]) == 1) or (slot is not None and slot in "bBhHiIlLqQnN")):
+                return a
+            if fn[1] == "float" and ((a[0] == "call" and a[1] in (("g", "float"), ("ext", "math", "log"), ("ext", "math", "log2"), ("ext", "math", "sqrt"), ("ext", "math", "exp"), ("ext", "math", "pow")))
+                                     or (slot is not None and slot in "fde")):
+                return a
         if fn in (("ext", "math", "log"),) and len(args) == 1 and is_num_const(args[0]) and args[0][1] > 0:
             return C(math.log(args[0][1]))
         if fn in (("g", "min"), ("g", "max")) and not kw and len(args) >= 2:
